@@ -127,6 +127,10 @@ def run_image(arg):
                 # damaged image: a field mutation of a writer image; the catalogue comes from the valid original
                 bt = c05.base_trees()
                 bname, tree, kw = bt[idx % len(bt)]
+                if idx % 7 in (3, 5):
+                    # the same-location damage below needs at least two files with data blocks
+                    multi = [t for t in bt if t[0] in ("deep", "small-files-no-frags") or t[0].startswith("compressed-data-")]
+                    bname, tree, kw = multi[(idx // 7) % len(multi)]
                 img, fmap, info = sqfsimg.build_image(tree, **kw)
                 im = sqfsimg.parse(img)
                 cands = [f for f in fmap.fields if f[2] <= 8 and not f[0].startswith("sb.magic")]
@@ -148,16 +152,23 @@ def run_image(arg):
                         else:
                             data = sqfsimg.patch(data, o + 8, 4, r.choice([0x00FFFFFF, 0x01FFFFFF, 1, (1 << 24) | 1]))
                         muts.append("%s damaged" % n)
-                if idx % 7 == 3:
-                    # two inodes referencing the same data location with different size words
+                if idx % 7 in (3, 5):
+                    # two inodes referencing the same data location; the second one with its own size word, with the size word of the
+                    # first, or with that word and the "stored uncompressed" bit / a size bit flipped (what is cached for one location
+                    # must not be handed out for another size word)
                     f = {n: (o, s) for n, o, s in fmap.fields}
-                    bw = [n for n in f if ".blockword0" in n]
-                    st = [n for n in f if n.endswith(".blocks_start")]
-                    if len(st) >= 2:
-                        a, b = st[0], st[1]
-                        va = int.from_bytes(img[f[a][0]:f[a][0] + f[a][1]], "little")
-                        data = sqfsimg.patch(data, f[b][0], f[b][1], va)
-                        muts.append("%s:=%s" % (b, a))
+                    bw = sorted(n[:-len(".blockword0")] for n in f if n.endswith(".blockword0") and n[:-len(".blockword0")] + ".blocks_start" in f)
+                    if len(bw) >= 2:
+                        a, b = r.sample(bw, 2)
+                        oa, ob = f[a + ".blocks_start"], f[b + ".blocks_start"]
+                        data = sqfsimg.patch(data, ob[0], ob[1], int.from_bytes(img[oa[0]:oa[0] + oa[1]], "little"))
+                        wa = int.from_bytes(img[f[a + ".blockword0"][0]:f[a + ".blockword0"][0] + 4], "little")
+                        how = r.choice(["own-word", "same-word", "flip-stored-bit", "flip-stored-bit", "size+1", "size-1"])
+                        if how != "own-word":
+                            w = {"same-word": wa, "flip-stored-bit": wa ^ (1 << 24), "size+1": wa + 1, "size-1": max(1, wa - 1)}[how]
+                            data = sqfsimg.patch(data, f[b + ".blockword0"][0], 4, w)
+                        muts.append("%s at the location of %s (%s)" % (b, a, how))
+                        oc.inc("same_location_images")
                 oc.notes.append("damaged: " + ",".join(muts)[:100])
                 with open(ip, "wb") as fh:
                     fh.write(data)
